@@ -201,15 +201,19 @@ namespace c14
     template <class T> struct Box
     {
         static constexpr size_t CAN = 32;
+        // ASan poisons whole 8-byte granules: the object's slot is rounded up to a multiple of 8;
+        // the few slack bytes behind an object whose size is not (they are not poisoned) carry a
+        // pattern of their own that is checked with the canaries. The harness must build whatever
+        // the layout of the container is.
+        static constexpr size_t SLOT = (sizeof(T) + 7) / 8 * 8;
         struct Layout
         {
             uint8_t pre[CAN];
-            alignas(T) uint8_t obj[sizeof(T)];
+            alignas(alignof(T) > 8 ? alignof(T) : 8) uint8_t obj[SLOT];
             uint8_t post[CAN];
         };
         static_assert(alignof(T) <= 16, "operator new alignment");
-        static_assert(sizeof(T) % 8 == 0, "ASan poisons whole 8-byte granules");
-        static_assert(sizeof(Layout) == 2 * CAN + sizeof(T), "no padding around obj");
+        static_assert(sizeof(Layout) == 2 * CAN + SLOT, "no padding around obj");
         Exact blk;
         Layout *L;
         bool built = false;
@@ -218,6 +222,7 @@ namespace c14
         {
             memset(L->pre, 0xC5, CAN);
             memset(L->obj, 0xEE, sizeof(T));
+            memset(L->obj + sizeof(T), 0xA7, SLOT - sizeof(T));
             memset(L->post, 0x5C, CAN);
             ASAN_POISON_MEMORY_REGION(L->pre, CAN);
             ASAN_POISON_MEMORY_REGION(L->post, CAN);
@@ -242,6 +247,9 @@ namespace c14
             bool ok = true;
             for (size_t i = 0; i < CAN; i++)
                 if (L->pre[i] != 0xC5 || L->post[i] != 0x5C)
+                    ok = false;
+            for (size_t i = sizeof(T); i < SLOT; i++)
+                if (L->obj[i] != 0xA7)
                     ok = false;
             ASAN_POISON_MEMORY_REGION(L->pre, CAN);
             ASAN_POISON_MEMORY_REGION(L->post, CAN);
